@@ -1222,6 +1222,9 @@ OPNMIDI_EXPORT int opn2_playFormat(OPN2_MIDIPlayer *device, int sampleCount,
 
             left -= (int)in_generatedPhys;
             gotten_len += (in_generatedPhys) /* - setup.stored_samples*/;
+#ifdef OPNMIDI_VERIF
+            if(opnmidi_verif_frames) opnmidi_verif_frames(player, (long)in_generatedStereo);
+#endif
         }
         if(hasSkipped)
         {
@@ -1300,6 +1303,9 @@ OPNMIDI_EXPORT int opn2_generateFormat(struct OPN2_MIDIPlayer *device, int sampl
 
             left -= (int)in_generatedPhys;
             gotten_len += (in_generatedPhys) /* - setup.stored_samples*/;
+#ifdef OPNMIDI_VERIF
+            if(opnmidi_verif_frames) opnmidi_verif_frames(player, (long)in_generatedStereo);
+#endif
         }
 
         player->TickIterators(eat_delay);
